@@ -388,11 +388,12 @@ const c11SlowMs = 400     // a call issued after the observed close must return 
 
 // c11Case is one script together with what was observed when it ran (so a case is its own replay).
 type c11Case struct {
-	Mode    string `json:"mode"`     // how the server closes: close | half | rst | push | restart | idle
-	Burst   int    `json:"burst"`    // concurrent callers per round (1 = sequential)
-	Seq     int    `json:"seq"`      // sequential calls of each caller per round; the server closes after burst*seq replies
-	DelayUs int    `json:"delay_us"` // delay between the observed close and the next round's calls
-	Rounds  int    `json:"rounds"`   // number of closes
+	Mode    string `json:"mode"`               // how the server closes: close | half | rst | push | restart | idle
+	Burst   int    `json:"burst"`              // concurrent callers per round (1 = sequential)
+	Seq     int    `json:"seq"`                // sequential calls of each caller per round; the server closes after burst*seq replies
+	DelayUs int    `json:"delay_us"`           // delay between the observed close and the next round's calls
+	Rounds  int    `json:"rounds"`             // number of closes
+	PauseUs int    `json:"pause_us,omitempty"` // > 0: each round is two sets of calls on the same connection with this idle period between them
 
 	Events   []c11Event `json:"events,omitempty"`
 	Retries  int        `json:"retries,omitempty"`    // re-runs made after a timing failure
@@ -422,7 +423,7 @@ func c11RunOnce(c *c11Case) ([]c11Event, string) {
 	if c.Seq < 1 {
 		c.Seq = 1
 	}
-	k := c.Burst * c.Seq
+	k := c.Burst * c.Seq * c11Halves(c)
 	if c.Mode == "held" {
 		k = -1 // closes on command only
 	}
@@ -451,27 +452,12 @@ func c11RunOnce(c *c11Case) ([]c11Event, string) {
 	}
 	callNo := 0
 	for round := 0; round <= c.Rounds; round++ {
-		var wg sync.WaitGroup
-		for b := 0; b < c.Burst; b++ {
-			first := callNo
-			callNo += c.Seq
-			wg.Add(1)
-			go func() {
-				defer wg.Done()
-				for id := first; id < first+c.Seq; id++ {
-					log.add(c11rawEvent{k: "enq", id: id})
-					t0 := time.Now()
-					err := c11Call(sp, id)
-					ms := int(time.Since(t0) / time.Millisecond)
-					if err != nil {
-						log.add(c11rawEvent{k: "fail", id: id, ms: ms})
-					} else {
-						log.add(c11rawEvent{k: "reply", id: id, ms: ms})
-					}
-				}
-			}()
+		if c.PauseUs > 0 {
+			// first set of calls, then an idle period on the healthy connection (the sender's ticker fires)
+			c11CallSet(c, sp, log, &callNo)
+			time.Sleep(time.Duration(c.PauseUs) * time.Microsecond)
 		}
-		wg.Wait()
+		c11CallSet(c, sp, log, &callNo)
 		if round == c.Rounds {
 			break
 		}
@@ -509,6 +495,38 @@ func c11RunOnce(c *c11Case) ([]c11Event, string) {
 	// let a late duplicate or a late write show up in the log
 	time.Sleep(5 * time.Millisecond)
 	return c11Canon(log), ""
+}
+
+func c11Halves(c *c11Case) int {
+	if c.PauseUs > 0 {
+		return 2
+	}
+	return 1
+}
+
+// c11CallSet issues Burst concurrent callers with Seq sequential calls each and waits for them.
+func c11CallSet(c *c11Case, sp *tars.ServantProxy, log *c11Log, callNo *int) {
+	var wg sync.WaitGroup
+	for b := 0; b < c.Burst; b++ {
+		first := *callNo
+		*callNo += c.Seq
+		wg.Add(1)
+		go func() {
+			defer wg.Done()
+			for id := first; id < first+c.Seq; id++ {
+				log.add(c11rawEvent{k: "enq", id: id})
+				t0 := time.Now()
+				err := c11Call(sp, id)
+				ms := int(time.Since(t0) / time.Millisecond)
+				if err != nil {
+					log.add(c11rawEvent{k: "fail", id: id, ms: ms})
+				} else {
+					log.add(c11rawEvent{k: "reply", id: id, ms: ms})
+				}
+			}
+		}()
+	}
+	wg.Wait()
 }
 
 // c11RunHeld is the deterministic script for the loss that falls between the sender's test and its write: the send
@@ -649,7 +667,7 @@ const (
 
 func c11Monitor(c *c11Case, evs []c11Event) map[string]string {
 	out := map[string]string{}
-	per := c.Burst * c.Seq
+	per := c.Burst * c.Seq * c11Halves(c)
 	if c.Seq < 1 {
 		per = c.Burst
 	}
@@ -683,8 +701,8 @@ func c11Monitor(c *c11Case, evs []c11Event) map[string]string {
 			}
 		case "reply":
 			finished[e.ID] = true
-			if e.ID >= per && e.Ms > c11SlowMs {
-				out[c11SigSlow] = fmt.Sprintf("call %d, issued after the client had observed the close, took %d ms (limit %d ms, timeout %d ms)", e.ID, e.Ms, c11SlowMs, c11TimeoutMs)
+			if e.Ms > c11SlowMs {
+				out[c11SigSlow] = fmt.Sprintf("call %d took %d ms although the server answers at once (limit %d ms, timeout %d ms)", e.ID, e.Ms, c11SlowMs, c11TimeoutMs)
 			}
 		case "fail":
 			finished[e.ID] = true
@@ -743,7 +761,7 @@ func c11Run(c *c11Case) []Failure {
 	for _, sig := range sigs {
 		if repro[sig] >= 3 {
 			c.Repro = repro[sig]
-			fs = append(fs, Failure{Sig: sig, Desc: fmt.Sprintf("server closes by %q after %d replies, next calls %d us after the observed close: %s (reproduced in %d re-runs)", c.Mode, c.Burst*c.Seq, c.DelayUs, first[sig], repro[sig])})
+			fs = append(fs, Failure{Sig: sig, Desc: fmt.Sprintf("server closes by %q after %d replies, next calls %d us after the observed close: %s (reproduced in %d re-runs)", c.Mode, c.Burst*c.Seq*c11Halves(c), c.DelayUs, first[sig], repro[sig])})
 		}
 	}
 	if len(fs) == 0 {
@@ -821,6 +839,10 @@ func c11Gen(tier string, rng *rand.Rand) []c11Case {
 			}
 		}
 	}
+	for r := 0; r < 3*reps; r++ {
+		// an idle period longer than the sender's 1 s ticker on a healthy connection, then calls, then the close
+		cs = append(cs, c11Case{Mode: []string{"close", "idle", "restart"}[r%3], Burst: 1 + r%2, Seq: 1 + rng.Intn(2), DelayUs: []int{0, 1000, 50000}[rng.Intn(3)], Rounds: 1, PauseUs: 1050000 + rng.Intn(400000)})
+	}
 	for r := 0; r < 4*reps; r++ {
 		d := []int{0, 1000, 50000}[r%3]
 		if d > 0 {
@@ -871,7 +893,11 @@ func init() {
 				if !after {
 					return ""
 				}
-				return fmt.Sprintf("%s/b%d/s%d/%s", c.Mode, c.Burst, c.Seq, c11DelayClass(c.DelayUs))
+				pz := ""
+				if c.PauseUs > 0 {
+					pz = "/pause"
+				}
+				return fmt.Sprintf("%s/b%d/s%d/%s%s", c.Mode, c.Burst, c.Seq, c11DelayClass(c.DelayUs), pz)
 			},
 			Extra: func(tier string, rng *rand.Rand, res *Result) {
 				res.Traces = len(res.Cases)
